@@ -60,6 +60,10 @@ type Case struct {
 	// root); then the stores get the contents of the case. Trust comes from what the listed
 	// stores hold when the verification happens
 	RotatedFrom string `json:"rotatedFrom,omitempty"`
+	// Ctor "legacy-decoy": the verifier is built with the deprecated NewWithOptions(document, ...),
+	// and the options value handed along carries ANOTHER document (one wildcard statement listing
+	// every store): the applicable statement is a statement of the document the caller passed
+	Ctor string `json:"ctor,omitempty"`
 }
 
 // Step is an earlier verification on the same verifier instance (its result is not judged;
@@ -273,7 +277,15 @@ func check(c Case) (string, string, bool) {
 			"both": {pf.CapabilityRevocationCheckVerifier, pf.CapabilityTrustedIdentityVerifier}}[c.Plugin]
 		opts.PluginManager = &mocks.Manager{Plugins: map[string]pf.Plugin{"c03-plugin": &mocks.Plugin{Name: "c03-plugin", Version: "1.0.0", Capabilities: caps}}}
 	}
-	v, err := verifier.NewVerifierWithOptions(ts, opts)
+	var v notation.Verifier
+	var err error
+	if c.Ctor == "legacy-decoy" {
+		all := append(append([]string{}, universe...), unlistedStores...)
+		opts.OCITrustPolicy = kit.OCIDoc("decoy-document", c.Level.SV(""), all, []string{"*"})
+		v, err = verifier.NewWithOptions(doc, ts, opts.PluginManager, opts)
+	} else {
+		v, err = verifier.NewVerifierWithOptions(ts, opts)
+	}
 	if err != nil {
 		return "harness", "verifier construction: " + err.Error(), false
 	}
@@ -404,6 +416,9 @@ func record(rec *stats.Recorder, c Case, pass bool) {
 	if c.Wildcard && c.WildcardAt < len(c.Statements)-1 {
 		cl = append(cl, "wildcard-statement-before-exact")
 	}
+	if c.Ctor != "" {
+		cl = append(cl, "constructor="+c.Ctor)
+	}
 	if c.RotatedFrom != "" {
 		cl = append(cl, "store-contents-rotated-on-long-lived-verifier")
 		if c.RotatedFrom == "r" && !pass {
@@ -453,7 +468,7 @@ func record(rec *stats.Recorder, c Case, pass bool) {
 		keys = append(keys, k+"="+v)
 	}
 	sort.Strings(keys)
-	rec.Case(dedup(cl), nt, stats.Fingerprint(strings.Join(keys, ";"), fmt.Sprint(c.Statements), c.Wildcard, c.WildcardAt, c.Select, c.Scheme, c.Format, c.Level.Key(), c.RealStore, fmt.Sprint(c.Warmup), c.Plugin, c.CaseTwin, c.RotatedFrom), func() any { return c })
+	rec.Case(dedup(cl), nt, stats.Fingerprint(strings.Join(keys, ";"), fmt.Sprint(c.Statements), c.Wildcard, c.WildcardAt, c.Select, c.Scheme, c.Format, c.Level.Key(), c.RealStore, fmt.Sprint(c.Warmup), c.Plugin, c.CaseTwin, c.RotatedFrom, c.Ctor), func() any { return c })
 }
 
 func dedup(in []string) []string {
@@ -505,6 +520,7 @@ func TestC03_Placements(t *testing.T) {
 		if !c.RealStore {
 			c.RotatedFrom = rp.Pick(rt, "rotatedFrom", "", "", "", "r", "r", "u")
 		}
+		c.Ctor = rp.Pick(rt, "ctor", "", "", "", "legacy-decoy")
 		if n > 1 && !(c.Wildcard && (c.WildcardAt == 0 || c.WildcardAt == n-1)) {
 			c.CaseTwin = rapid.IntRange(0, 2).Draw(rt, "caseTwin") == 0
 		}
